@@ -751,6 +751,7 @@ var Families = map[string]func(*fw.Rng, Poison) Built{
 	"implerr":  famImplErr,
 	"hostvals": famHostVals,
 	"jsonkeys": famJSONKeys,
+	"casterr":  famCastErr,
 }
 
 // FamilyNames in a fixed order (these families share one generator stream).
@@ -758,4 +759,4 @@ var FamilyNames = []string{"modules", "objects", "locals", "warnings", "impl", "
 
 // LateFamilyNames: families added after the first workloads were recorded. They draw from their own
 // generator stream, so that the cases of the older families stay what they were for every seed.
-var LateFamilyNames = []string{"fielderr", "cells", "synerr", "implerr", "hostvals", "jsonkeys"}
+var LateFamilyNames = []string{"fielderr", "cells", "synerr", "implerr", "hostvals", "jsonkeys", "casterr"}
